@@ -551,6 +551,74 @@ def check_window(chk, rule, prog, kinds, floor, control):
     return n
 
 
+def check_set_handle(chk, rule, prog, eff):
+    """The two set-handle routines attach what they are given, every time: on every path the item's data pointer becomes the
+    `data` argument and its length the `length` argument - no early way out for "the same block again" (the bytes behind it, or the
+    length, may have changed) - and they obtain or release no memory themselves (the block they are handed may be the one the item
+    already holds)."""
+    import paths as P
+    import ownership as O
+    off = item_offsets(prog)
+    n = 0
+    for name, meta in (("cbor_string_set_handle", "_cbor_string_metadata"), ("cbor_bytestring_set_handle", "_cbor_bytestring_metadata")):
+        if name not in prog.funcs:
+            continue
+        f = prog.fn(name)
+        len_off = off["metadata"] + prog.field_offset(meta, "length")
+        where = "%s:%d" % (f.file, f.line)
+        ITEM, DATA, LEN = ("arg", 0), ("arg", 1), ("arg", 2)
+        for k, pa in enumerate(P.Executor(prog, eff, inline=O.static_callees(prog, eff, name)).run(name)):
+            stores = {P.ptr_key(e.args[0]): e.args[1] for e in pa.events if e.kind == "store"}
+            okd = stores.get((ITEM, off["data"])) == DATA
+            okl = stores.get((ITEM, len_off)) == LEN
+            n += 1
+            chk.ob(rule, "%s path %d: data and length become the arguments" % (name, k), okd and okl, where, fn=name, key="seth:%s:%d" % (name, k),
+                   detail="" if okd and okl else "data := %r, length := %r on this path: the item keeps a length (or a block) from an earlier attach" % (
+                       stores.get((ITEM, off["data"])), stores.get((ITEM, len_off))), path=pa.block_lines() if not (okd and okl) else None)
+        S = eff.summ.get(name, {})
+        quiet = not S.get("frees") and not S.get("allocates")
+        chk.ob(rule, "%s obtains and releases no memory" % name, quiet, where, fn=name, key="seth:quiet:" + name,
+               detail="" if quiet else "allocates=%s frees=%s (transitively): attaching the block the item already holds releases it under the caller" % (
+                   S.get("allocates"), S.get("frees")))
+    chk.floor(rule, "paths of the set-handle routines", n, 2)
+
+
+def check_stateless(chk, rule, prog, eff, roots):
+    """The decoding entry points are functions of their arguments: nothing reachable from them writes an object with static
+    storage (a memo of the last call, a flag that outlives the call), so a call cannot be misled by the calls before it.  The
+    transitive write sets come from the effects engine (E1); the allocator hooks are written only by cbor_set_allocs."""
+    from effects import ALLOC_GLOBALS
+    seen = set()
+    n = 0
+    roots = list(roots)
+    if "cbor_load" in roots:
+        # the tree builder runs inside the decoder, through the callback table of cbor_load
+        import tables as _tb
+        g = prog.global_for(prog.fn("cbor_load"), "cbor_load.callbacks")
+        if g is not None and hasattr(g.get("init_val"), "elems"):
+            roots += [el.name for el in g["init_val"].elems if getattr(el, "name", None) in prog.funcs]
+    for r in roots:
+        if r not in prog.funcs:
+            continue
+        reach = {r} | {c for c in eff.transitive_callees(r) if c in prog.funcs}
+        for name in sorted(reach):
+            if name in seen or prog.funcs[name].is_extra:
+                continue
+            seen.add(name)
+            n += 1
+            gw = sorted(x[1] for x in eff.summ[name]["writes"] if x[0] == "global" and x[1] not in ALLOC_GLOBALS)
+            ok = not gw
+            detail = ""
+            if not ok:
+                wit = eff.write_witness(name, ("global", gw[0]))
+                detail = "writes %s, which outlives the call (%s): the next call on the same buffer or stream starts from what this one left behind" % (
+                    gw[0], " -> ".join("%s@%s" % (fn, ins.loc()) for fn, ins, _ in wit))
+            chk.ob(rule, "%s (reachable from %s) writes no object with static storage" % (name, r), ok,
+                   "%s:%d" % (prog.funcs[name].file, prog.funcs[name].line), fn=name, key="stateless:" + name, detail=detail,
+                   nontrivial=bool(eff.summ[name]["callees"]) or not ok)
+    chk.floor(rule, "functions reachable from the decoding entry points", n, 10)
+
+
 def check_push_atomic(chk, rule, prog, eff):
     """The decoding stack's push either links a record and counts it, or refuses and leaves the stack exactly as it was: on every
     path of `_cbor_stack_push` that returns NULL no field of the stack header has been written (the depth counts the records that
